@@ -20,6 +20,10 @@
 (* refused or not, satisfies the step relation of the action property Frame *)
 (* of SamplesOps (FrameStep: no existing object altered, the caller's list  *)
 (* altered by no library action).                                           *)
+(* The event relation does not mention the data layout of the stored array  *)
+(* (dimension lay of SamplesOps: number type, memory order, contiguity,     *)
+(* write protection): the seeded driver stores a third of its chains in a   *)
+(* seeded layout and every such event must satisfy the SAME relation.       *)
 (***************************************************************************)
 EXTENDS Integers, Sequences, TLC, Json, IOUtils
 
